@@ -59,9 +59,9 @@ Definition check_load (c : load_case) : bool :=
 
 (* one call of ApplyTemplates.template_usage:
    (created_templates before, the rule_defs entries named `name`, name, args,
-    observed: Some (was cached?, appended (name, tree) if any, returned name)) *)
+    observed: Some (was cached?, appended (name, tree, options) if any, returned name)) *)
 Definition tmpl_case :=
-  (list string * list rdef * string * list tree * (bool * option (string * tree) * string))%type.
+  (list string * list rdef * string * list tree * (bool * option (string * tree * dopts) * string))%type.
 
 Definition check_template (c : tmpl_case) : bool :=
   let '(created, rds, name, args, (cached, appended, ret)) := c in
@@ -72,9 +72,11 @@ Definition check_template (c : tmpl_case) : bool :=
       Bool.eqb cached (mem ret' created) &&
       match appended, skipn (List.length rds) rds' with
       | None, [] => list_eqb created created'
-      | Some (n, t), [r] =>
+      | Some (n, t, o), [r] =>
           String.eqb n (r_name r) && tree_eqb t (r_tree r) && list_eqb (created ++ [n])%list created' &&
           match r_params r with [] => true | _ => false end &&
+          (* the options the implementation gave the instance: those of the template (modifiers, priority, label) *)
+          dopts_eqb o (r_opts r) &&
           match rds with [r0] => dopts_eqb (r_opts r0) (r_opts r) | _ => false end
       | _, _ => false
       end
